@@ -15,7 +15,7 @@ import (
 // C13 — bus routing follows Attach exactly and EaDump agrees with byte-wise reads.
 
 type c13Op struct {
-	Kind  string `json:"kind"` // attach, misattach, read, write, dump, read24 (three bytes, wrapping inside the bank)
+	Kind  string `json:"kind"` // attach, misattach, read, write, dump, read24 (three bytes, wrapping inside the bank), copy (continue on a copy of the Bus value; the bus left behind keeps its routing)
 	Mem   int    `json:"mem,omitempty"`
 	Start uint32 `json:"start"`
 	End   uint32 `json:"end,omitempty"`
@@ -110,10 +110,25 @@ func c13Check(c c13Case) error {
 		}
 		return nil
 	}
+	// buses left behind by a copy op, with the routing they had then
+	type behind struct {
+		b     *bus.Bus
+		owner c13Owner
+		at    int
+	}
+	var left []behind
+	var probes []uint32
 	for i, op := range c.Ops {
 		what := fmt.Sprintf("op %d %s", i, op.Kind)
 		clearLogs()
+		probes = append(probes, op.Start, op.End)
 		switch op.Kind {
+		case "copy":
+			// Bus is used as a value (emulator.System embeds one): a copy is an independent bus with the same routing
+			nb := new(bus.Bus)
+			*nb = *b
+			left = append(left, behind{b, c13Owner{ivs: append([]c13Iv(nil), owner.ivs...)}, i})
+			b = nb
 		case "attach":
 			if err := b.Attach(stubs[op.Mem], "m", op.Start, op.End); err != nil {
 				return fmt.Errorf("%s: Attach($%06X,$%06X) of an aligned range failed: %v", what, op.Start, op.End, err)
@@ -270,6 +285,30 @@ func c13Check(c c13Case) error {
 			return fmt.Errorf("bad op %q", op.Kind)
 		}
 	}
+	// the buses left behind still route as they did when they were copied
+	for _, l := range left {
+		for _, a := range probes {
+			if a >= 1<<24 {
+				continue
+			}
+			clearLogs()
+			own, ok := l.owner.get(a >> 4)
+			var got byte
+			pe := rig.Safe(func() error { got = l.b.EaRead(a); return nil })
+			if !ok {
+				if pe == nil {
+					return fmt.Errorf("the bus that was copied at op %d later answers a read of $%06X (%02x) although nothing was ever attached there on it: calls on the copy changed it", l.at, a, got)
+				}
+				continue
+			}
+			if pe != nil {
+				return fmt.Errorf("the bus that was copied at op %d no longer reaches memory #%d at $%06X (%v): calls on the copy changed it", l.at, own, a, pe)
+			}
+			if err := expectOnly(fmt.Sprintf("read of $%06X on the bus that was copied at op %d", a, l.at), own, []rig.Access{{Addr: a, Val: stubs[own].peek(a)}}); err != nil {
+				return fmt.Errorf("%v (calls on the copy changed the original)", err)
+			}
+		}
+	}
 	return nil
 }
 
@@ -298,7 +337,14 @@ func c13Gen(t *rapid.T) c13Case {
 	}
 	var c c13Case
 	n := rapid.IntRange(1, rig.Pick(25, 60)).Draw(t, "nops")
+	copyAt := -1
+	if rapid.IntRange(0, 7).Draw(t, "with-copy") == 0 {
+		copyAt = rapid.IntRange(0, n-1).Draw(t, "copy-at")
+	}
 	for i := 0; i < n; i++ {
+		if i == copyAt {
+			c.Ops = append(c.Ops, c13Op{Kind: "copy"})
+		}
 		cur = rapid.IntRange(0, len(anchors)-1).Draw(t, "anchor")
 		switch k := rapid.IntRange(0, 11).Draw(t, "op"); {
 		case k <= 3:
@@ -384,6 +430,33 @@ func c13RealCheck(c c13RealCase) error {
 	if err := b.Attach(memory.NewRAM(ramData, 0x8000), "ram", 0x8000, 0x80FF); err != nil {
 		return err
 	}
+	// a memory.ROM attached over the upper half of a RAM: writes there go to the ROM (most recently attached), which
+	// ignores them; the RAM underneath must not receive them
+	under := make([]byte, 0x200)
+	for i := range under {
+		under[i] = 0x11
+	}
+	if err := b.Attach(memory.NewRAM(under, 0x7E00), "under", 0x7E00, 0x7FFF); err != nil {
+		return err
+	}
+	if err := b.Attach(memory.NewROM(romData, 0x7F00), "rom", 0x7F00, 0x7FFF); err != nil {
+		return err
+	}
+	if a := c.Start; a >= 0x7F00 && a <= 0x7FFF {
+		before := b.EaRead(a)
+		if pe := rig.Safe(func() error { b.EaWrite(a, before^0xFF); return nil }); pe != nil {
+			return fmt.Errorf("EaWrite($%06X) on a memory.ROM attached over a RAM failed: %v", a, pe)
+		}
+		for i, v := range under {
+			if v != 0x11 {
+				return fmt.Errorf("EaWrite($%06X) went to the RAM attached earlier (its byte $%X changed to %02x) although a memory.ROM was attached over that range afterwards", a, i, v)
+			}
+		}
+		if got := b.EaRead(a); got != before && got != before^0xFF {
+			return fmt.Errorf("after EaWrite($%06X) a read returns %02x (was %02x)", a, got, before)
+		}
+		romData[a-0x7F00] = before
+	}
 	// a mirror of the RAM's first 64 bytes, implemented by forwarding through the bus
 	if err := b.Attach(&c13Forward{b: b, from: 0x8100, to: 0x8000}, "mirror", 0x8100, 0x813F); err != nil {
 		return err
@@ -403,11 +476,11 @@ func c13RealCheck(c c13RealCase) error {
 	for i := 0; i < c.Len; i++ {
 		a := c.Start + uint32(i)
 		want := byte(0xA5)
-		if a >= 0x7F00 && a <= 0x813F {
+		if a >= 0x7E00 && a <= 0x813F {
 			want = b.EaRead(a)
 		}
 		if buf[i] != want {
-			return fmt.Errorf("EaDump($%06X,$%06X) position %d (address $%06X) holds %02x, a single read gives %02x (memory.ROM at $7F00, memory.RAM at $8000, forwarding mirror of $8000-$803F at $8100)", c.Start, end, i, a, buf[i], want)
+			return fmt.Errorf("EaDump($%06X,$%06X) position %d (address $%06X) holds %02x, a single read gives %02x (memory.RAM at $7E00-$7FFF with a memory.ROM over $7F00-$7FFF, memory.RAM at $8000, forwarding mirror of $8000-$803F at $8100)", c.Start, end, i, a, buf[i], want)
 		}
 	}
 	for i := c.Len; i < len(buf); i++ {
@@ -510,6 +583,8 @@ func TestC13(t *testing.T) {
 						if op.Start>>4 != op.End>>4 && att {
 							ev.Class("dump-multi-block")
 						}
+					case "copy":
+						ev.Class("continued-on-a-copy-of-the-Bus-value")
 					case "misattach":
 						ev.Class("misaligned-attach")
 					}
